@@ -230,3 +230,79 @@ func (e *Exec) Choices() []int {
 	}
 	return out
 }
+
+// RWMutex replaces sync.RWMutex (a change of the wrapper's lock to a reader/writer lock must not stop
+// the explorer from building): readers share, a writer excludes; every call is a scheduling point.
+type RWMutex struct {
+	real    sync.RWMutex
+	tag     Mutex // what blocked threads wait on
+	writer  bool
+	readers int
+}
+
+func (m *RWMutex) wait(e *Exec, self int, busy func() bool) {
+	e.yield(self)
+	for busy() {
+		e.threads[self].blocked = &m.tag
+		next := e.schedule(self)
+		if next < 0 {
+			select {}
+		}
+		<-e.threads[self].wake
+	}
+}
+
+func (m *RWMutex) release(e *Exec) {
+	for _, t := range e.threads {
+		if t.blocked == &m.tag {
+			t.blocked = nil
+		}
+	}
+	e.yield(e.cur)
+}
+
+func (m *RWMutex) Lock() {
+	e := current()
+	if e == nil {
+		m.real.Lock()
+		return
+	}
+	m.wait(e, e.cur, func() bool { return m.writer || m.readers > 0 })
+	m.writer = true
+}
+
+func (m *RWMutex) Unlock() {
+	e := current()
+	if e == nil {
+		m.real.Unlock()
+		return
+	}
+	if !m.writer {
+		panic("shim: unlock of unlocked rwmutex")
+	}
+	m.writer = false
+	m.release(e)
+}
+
+func (m *RWMutex) RLock() {
+	e := current()
+	if e == nil {
+		m.real.RLock()
+		return
+	}
+	m.wait(e, e.cur, func() bool { return m.writer })
+	m.readers++
+}
+
+func (m *RWMutex) RUnlock() {
+	e := current()
+	if e == nil {
+		m.real.RUnlock()
+		return
+	}
+	if m.readers <= 0 {
+		panic("shim: runlock of unlocked rwmutex")
+	}
+	m.readers--
+	m.release(e)
+}
